@@ -146,7 +146,7 @@ class VonMisesMixture:
         resp: array of shape(n, self.k)
         """
         lwl = self.log_weighted_density(x)
-        wl = np.exp(lwl.T - lwl.mean(1)).T
+        wl = np.exp(lwl.T - lwl.max(1)).T
         swl = np.sum(wl, 1)
         resp = (wl.T / swl).T
         return resp
